@@ -52,6 +52,18 @@ def contains_union(t):
 
 def check_input(inputs, cmps, registry, dict_fields=()):
     """returns a hit dict or None"""
+    from json_to_models.generator import MetadataGenerator
+    g0 = MetadataGenerator(registry, dict_keys_fields=list(dict_fields))
+    for name, samples in inputs:
+        # what generate() returns is already simplified: normal form, and a further pass is the identity
+        meta = g0.generate(*copy.deepcopy(samples))
+        enc = conv.enc_ty(meta)
+        bad = nfcheck.nf_violations(enc)
+        if bad:
+            return {"kind": "generate-not-normal-form", "input": inputs, "type": enc, "observed": bad[:5]}
+        again = conv.enc_ty(g0.optimize_type(copy.deepcopy(meta)))
+        if again != enc:
+            return {"kind": "generate-not-idempotent", "input": inputs, "type": enc, "observed": again}
     reg, g = stages.build_registry(inputs, registry, cmps, dict_fields)
     for m in reg.models:
         before = conv.enc_ty(m.type)
